@@ -57,6 +57,14 @@ CLAIMED["C15"] = dict(
            "deletions or allocate edge ids on the graph itself. This is the 'regardless of earlier queries' clause, which no finite test history settles."),
     note=TB + "Not decided: father/sons/path/MRCA definitions, correctness of isTree()/isDA(), writes invalidated on some paths only (reported UNKNOWN), DAG rootedness cache.")
 
+CLAIMED["C13"] = dict(
+    engine="E6+E5",
+    technique="static analysis: structural inference of memo keys and lazy flags, reset/cover rules on the CFG of every fireParameterChanged sibling, lazy-flag coverage via callee effect summaries, sibling protocol and copy/assign member agreement",
+    level=("Static rules decide the history clause ('answers depend only on the current parameter values'): every notification that recomputes the forward pass resets the derivative memo keys and the backward "
+           "lazy flags on the same paths; a method that marks a transition model up to date has computed every result served under that flag; the three likelihood classes follow one update protocol; "
+           "copy constructor and operator= copy the same members."),
+    note=TB + "Not decided: numerical equality of the three algorithms, agreement with path enumeration, derivative values, stochasticity/stationarity of built-in matrices, flat-array index ranges (E2 not applied here).")
+
 NOT_APPLICABLE = {
     "C06": ("every clause is a floating-point identity of the JAMA QL/QR iterations (A.V = V.D within k.eps, ordering, trace/determinant); correctness lies in rotation coefficients and "
             "deflation tests that no sound static argument in reach bounds, and no structural necessary condition separable from run-time invariants exists (DESIGN.md section 6)"),
